@@ -13,6 +13,8 @@ Variable sg : signature value.
 Variable env : wenv.
 Variable dc : deco value.
 Variable c : call value.
+Variable veq : value -> value -> bool.
+Hypothesis NV : s_varpos sg = false.      (* functions without *args *)
 
 Notation param := (param value).
 Notation dict := (dict value).
@@ -23,7 +25,7 @@ Notation step_m := (step_m value is_none dc).
 Notation titem := (titem value is_none dc).
 Notation u_m := (u_m value is_none sg).
 Notation wc_ref := (wc_ref value is_none sg env dc).
-Notation vrun := (run value is_none rcfg rr sg env dc).
+Notation vrun := (run value is_none veq rcfg rr sg env dc).
 Notation gives := (caller_gives value sg dc c).
 Notation sdecl := (spec_declared value is_none sg dc c).
 Notation sundecl := (spec_undeclared value is_none dc).
@@ -183,7 +185,7 @@ Proof.
   destruct wfc_parts as (Len & ND & _ & _).
   destruct (d_ignore_input dc) eqn:Ig.
   - exists []. unfold ValidateGate.arrival. rewrite Ig. split; [reflexivity|]. split; [apply NoDup_nil|]. split; [intros x []|reflexivity].
-  - destruct (arrival_some value sg dc c Ig Len) as [xs [A E]]. exists xs. split; [assumption|]. split; [|split].
+  - destruct (arrival_some value sg NV dc c Ig Len) as [xs [A E]]. exists xs. split; [assumption|]. split; [|split].
     + assert (E2 : map (fun y : tagged value => fst (snd y)) xs = keys (map snd xs)) by (unfold keys; now rewrite map_map).
       rewrite E2, E. unfold named_assignment. apply nodup_keys_comm in ND. exact ND.
     + intros y Iy. eapply arrival_gives; eassumption.
@@ -277,16 +279,16 @@ Proof.
   intros k x I. destruct arrival_total as (xs & A & NDx & Gx & Tx).
   destruct (D_inv _ _ I) as [(p & Ip & -> & ->)|(w & G & Dn & ->)].
   - destruct (dget (p_name p) S) as [w|] eqn:Sp.
-    + apply S_dget in Sp. destruct (gives_arrival _ _ _ _ _ _ _ A Sp) as [y [Iy Ey]].
+    + apply S_dget in Sp. destruct (gives_arrival _ _ _ NV _ _ _ _ A Sp) as [y [Iy Ey]].
       destruct (supplied_result _ _ _ _ _ _ _ _ _ W A NDx Iy) as [v [Hv Dv]]. rewrite Ey in Dv. cbn [fst snd] in Dv.
       exists v. split; [assumption|]. unfold ValidateGate.titem in Hv. rewrite Ey in Hv. cbn [fst snd] in Hv.
       rewrite (step_declared _ _ _ Ip), pv_spec in Hv. apply of_verdict_ok in Hv.
       rewrite (sdecl_supplied _ _ Sp), Hv. reflexivity.
     + assert (Abs := proj1 (S_none _) Sp). clear Sp. rename Abs into Sp. destruct (wc_ok_inv _ _ _ _ _ _ _ W) as (xs' & l12 & l3 & A' & F12 & F3 & _).
-      assert (U := missing_is_unused _ _ _ _ _ _ _ _ A' F12 Ip Sp).
+      assert (U := missing_is_unused _ _ _ _ NV _ _ _ _ A' F12 Ip Sp).
       destruct (Forall2_in_l _ _ _ _ _ (p_name p, u_m p) F3 (in_map _ _ _ U)) as [[k v] [_ [_ Hv]]]. cbn [snd] in Hv.
       exists v. split; [eapply missing_result; eauto using NDp | now apply sdecl_absent_ok].
-  - destruct (gives_arrival _ _ _ _ _ _ _ A G) as [y [Iy Ey]].
+  - destruct (gives_arrival _ _ _ NV _ _ _ _ A G) as [y [Iy Ey]].
     destruct (supplied_result _ _ _ _ _ _ _ _ _ W A NDx Iy) as [v [Hv Dv]]. rewrite Ey in Dv. cbn [fst snd] in Dv.
     assert (T : titem y = sitem value is_none dc (snd y)) by (rewrite map_map in Tx; exact (map_eq_in _ _ _ _ _ Tx y Iy)).
     rewrite T, Ey in Hv. unfold sitem in Hv. cbn [fst snd] in Hv. rewrite (step_undeclared _ _ Dn) in Hv.
@@ -303,7 +305,7 @@ Proof.
     change (p_name p) with (fst (p_name p, sdecl p)). apply in_map, D_declared, Ip. }
   destruct I as [I|I].
   - fold (keys l12) in I. rewrite (item_ok_keys _ _ _ F12), map_map in I. apply in_map_iff in I. destruct I as [y [E Iy]].
-    unfold ValidateGate.titem in E. cbn [fst] in E. subst n. assert (G := arrival_gives _ _ _ _ _ _ A Iy).
+    unfold ValidateGate.titem in E. cbn [fst] in E. subst n. assert (G := arrival_gives _ _ _ NV _ _ _ A Iy).
     destruct (declared value dc (fst (snd y))) eqn:Dn; [auto|].
     change (fst (snd y)) with (fst (fst (snd y), sundecl (fst (snd y)) (snd (snd y)))). apply in_map. now apply D_undeclared.
   - fold (keys l3) in I. rewrite (item_ok_keys _ _ _ F3) in I. unfold ValidateRef.uitems in I. rewrite map_map in I. cbn [fst] in I.
@@ -356,7 +358,7 @@ Proof.
       exists TooManyArgumentsC, None. split; [apply (raises_in n), Du | split; [reflexivity | now left]].
   - apply seqm_ok in W1. unfold ValidateRef.tail_m in W. apply mbind_raise_inv in W. destruct W as [W|[l3 [_ W]]].
     + apply seqm_raise_inv in W. destruct W as [it [I Hs]]. apply in_map_iff in I. destruct I as [p [<- Ip]]. cbn [snd] in Hs.
-      assert (Abs := absent_of_unused _ _ _ _ _ _ _ _ A W1 Ip). apply unused_In in Ip. destruct Ip as [Ip _].
+      assert (Abs := absent_of_unused _ _ _ _ NV _ _ _ _ A W1 Ip). apply unused_In in Ip. destruct Ip as [Ip _].
       destruct (sdecl_absent_raise _ _ _ Ip Abs Hs) as (e' & pn' & Sd & De & Pn).
       exists e', pn'. split; [|auto]. apply (raises_in (p_name p)). rewrite <- Sd. now apply D_declared.
     + apply mbind_raise_inv in W. destruct W as [W|[[] [_ W]]]; [congruence | discriminate].
@@ -400,20 +402,20 @@ Theorem run_meets_spec : forall is_async,
   end.
 Proof.
   intro is_async. unfold spec_outcome. destruct (snd (wc_ref c)) as [r|e pn] eqn:W.
-  - rewrite (ok_no_raise r W). rewrite run_ref. cbn [snd]. rewrite W.
+  - rewrite (ok_no_raise r W). rewrite (run_ref value is_none sg veq NV). cbn [snd]. rewrite W.
     assert (NDr := result_nodup _ _ _ _ _ _ _ W).
-    assert (SO := result_self_ok _ _ _ _ _ _ _ SG W).
+    assert (SO := result_self_ok _ _ _ _ _ NV _ _ SG W).
     rewrite observe_normal by assumption.
     assert (B := ok_binding r W). rewrite <- (fill_binding _ _ (s_params sg) B).
     unfold pyb. destruct (fill value (s_params sg) (norm value is_none (d_mode dc) r)) as [b0|] eqn:F.
-    + intro N. assert (U := names_fit_unknown _ _ _ _ _ _ _ N W).
+    + intro N. assert (U := names_fit_unknown _ _ _ _ NV _ _ _ N W).
       assert (U' : negb (s_varkw sg) && unknown_key value sg (norm value is_none (d_mode dc) r) = false).
       { destruct (s_varkw sg); [reflexivity|]. cbn [negb andb] in *. now apply unknown_norm. }
       rewrite U'. cbn. eexists. split; [reflexivity|]. intro n. rewrite !dget_app. destruct (dget n b0); [reflexivity|].
       unfold extras. rewrite (dget_filter_key value (fun k => negb (sig_has value sg k))), (extras_dget _ n D_nodup), in_sig_has, B.
       now destruct (sig_has value sg n).
     + now destruct (negb (s_varkw sg) && _).
-  - assert (R := raise_demanded _ _ W). rewrite (run_raise_of_wc _ _ _ _ _ _ _ _ _ W).
+  - assert (R := raise_demanded _ _ W). rewrite (run_raise_of_wc _ _ _ _ _ NV _ _ _ _ _ W).
     destruct (demanded_raises value is_none sg dc c) as [|x rs] eqn:Dr.
     + destruct R as (e' & pn' & [] & _).
     + exists e, pn. split; [reflexivity | exact R].
